@@ -300,6 +300,31 @@ def expected(case):
             return f64bits(I(0))
         if op in ("ufrom_u64", "ufrom_u128", "ifrom_i64", "ifrom_i128"):
             return hx(I(0))
+        if op in ("ufrom_str", "ifrom_str"):
+            # the grammar of the property statement: one optional sign ('+' only for BigUint), digits below the radix in
+            # either letter case, '_' anywhere after the first digit, leading zeros allowed
+            t, r = a[0].strip('"'), I(1)
+            if not 2 <= r <= 36:
+                return "PANIC"
+            sign = 1
+            if op == "ifrom_str" and t.startswith("-"):
+                sign, t = -1, t[1:]
+            elif t.startswith("+"):
+                t = t[1:]
+            if t == "" or t[0] == "_":
+                return "Err"
+            v = 0
+            for ch in t:
+                if ch == "_":
+                    continue
+                if not (ch.isascii() and ch.isalnum()) or int(ch, 36) >= r:
+                    return "Err"
+                v = v * r + int(ch, 36)
+            return "Ok(%s)" % hx(sign * v)
+        if op in ("ufmt", "ifmt"):
+            n, spec = I(0), a[1]
+            py = {"x": "x", "X": "X", "o": "o", "b": "b", "#x": "#x", "08x": "08x", "+": "+d", "d": "d"}[spec]
+            return format(n, py)
         if op in ("uto_str", "ito_str"):
             n, r = I(0), I(1)
             if not 2 <= r <= 36:
@@ -601,6 +626,33 @@ def bank(pid, tier, seed):
                 cases.append(("uto_radix_be", hx(a), hx(r)))
             for r in (0, 1, 37, 64):
                 cases.append(("uto_str", hx(a), hx(r)))
+            for spec in ("x", "X", "o", "b", "#x", "08x", "+", "d"):
+                if a % 5 == 0 or a < 300:
+                    cases.append(("ufmt", hx(a), spec))
+                    cases.append(("ifmt", hx(-a), spec))
+                    cases.append(("ifmt", hx(a), spec))
+        # text parsing: emitted text in every decoration the grammar allows, and the ill-formed neighbours
+        digs36 = "0123456789abcdefghijklmnopqrstuvwxyz"
+
+        def text(n, r):
+            t = ""
+            while n:
+                t = digs36[n % r] + t
+                n //= r
+            return t or "0"
+        for a, _ in list(pairs(6))[::12]:
+            for r in (2, 7, 10, 16, 36):
+                t = text(a, r)
+                k = 1 + rng.randrange(len(t))
+                deco = [t, "+" + t, t.upper(), "00" + t, t[:k] + "_" + t[k:], t[:k] + "__" + t[k:] + "_", "+" + t[:1] + "_" + t[1:],
+                        "_" + t, "+_" + t, "++" + t, "+-" + t, "-+" + t, "--" + t, t + "+", t + digs36[r] if r < 36 else t + "!", "+", "_", '""', "+0", "0_"]
+                for d in deco:
+                    cases.append(("ufrom_str", '"%s"' % d if d != '""' else d, hx(r)))
+                    cases.append(("ifrom_str", '"%s"' % d if d != '""' else d, hx(r)))
+                    if d not in ('""',) and not d.startswith(("+", "-")):
+                        cases.append(("ifrom_str", '"-%s"' % d, hx(r)))
+            cases.append(("ufrom_str", '"1"', hx(1)))
+            cases.append(("ifrom_str", '"1"', hx(37)))
     elif pid == "C07":
         for a, b in signed(pairs(5)):
             for op in ("iand", "ior", "ixor", "iand_assign", "ior_assign", "ixor_assign", "iand_vr", "ior_vr", "ixor_vr"):
